@@ -258,10 +258,6 @@ Proof.
       * rewrite map_map, Etids. reflexivity.
     + intros t Ht. apply in_map_iff in Ht. destruct Ht as (i & <- & _). reflexivity.
   - left.
-    assert (E1 : s1 = (s, []) \/ exists a b, s1 = emit (s, []) (OResp (RSubmitErr a b))).
-    { destruct jobsel as [jid|]; [|inversion Hr].
-      destruct (find_job (hq_jobs (s, [])) jid) as [j|]; [|inversion Hr; subst; left; reflexivity].
-      destruct (negb (j_open j)); inversion Hr; subst; right; eauto. }
     destruct jobsel as [j0|].
     + destruct (find_job (hq_jobs (s, [])) j0) as [j|] eqn:Ef.
       * destruct (negb (j_open j)); inversion Hr; subst. inversion H; subst. constructor; [reflexivity | reflexivity | eauto].
@@ -279,3 +275,6 @@ Proof.
   unfold handle_open. intros H. inversion H; subst. cbv zeta. split; [|split; [reflexivity | split; reflexivity]].
   intros k. unfold hq_with, hq_jobs, hq_counter, emit. cbn [fst s_hq with_hq h_jobs]. rewrite find_job_set. reflexivity.
 Qed.
+
+Print Assumptions submit_graph_AR.
+Print Assumptions submit_array_AR.
